@@ -358,9 +358,19 @@ func (cb publicKeyCallback) auth(session []byte, user string, c packetConn, rand
 			}
 			continue
 		}
-		ok, err := validateKey(pub, algo, user, c)
+		ok, failureMethods, err := validateKeyMethods(pub, algo, user, c)
 		if err != nil {
 			return authFailure, nil, err
+		}
+		if !ok && failureMethods != nil {
+			// The server rejected the key with SSH_MSG_USERAUTH_FAILURE. As
+			// for a rejected signature below, if it no longer lists
+			// "publickey" among its allowed methods, do not offer any other
+			// key.
+			methods = failureMethods
+			if !slices.Contains(methods, cb.method()) {
+				return authFailure, methods, errSigAlgo
+			}
 		}
 		// OpenSSH 7.2-7.7 advertises support for rsa-sha2-256 and rsa-sha2-512
 		// in the "server-sig-algs" extension but doesn't support these
@@ -429,6 +439,14 @@ func (cb publicKeyCallback) auth(session []byte, user string, c packetConn, rand
 
 // validateKey validates the key provided is acceptable to the server.
 func validateKey(key PublicKey, algo string, user string, c packetConn) (bool, error) {
+	ok, _, err := validateKeyMethods(key, algo, user, c)
+	return ok, err
+}
+
+// validateKeyMethods is like validateKey. If the server rejects the key with
+// SSH_MSG_USERAUTH_FAILURE, it also returns the list of methods that can
+// continue.
+func validateKeyMethods(key PublicKey, algo string, user string, c packetConn) (bool, []string, error) {
 	pubKey := key.Marshal()
 	msg := publickeyAuthMsg{
 		User:     user,
@@ -439,29 +457,29 @@ func validateKey(key PublicKey, algo string, user string, c packetConn) (bool, e
 		PubKey:   pubKey,
 	}
 	if err := c.writePacket(Marshal(&msg)); err != nil {
-		return false, err
+		return false, nil, err
 	}
 
 	return confirmKeyAck(key, c)
 }
 
-func confirmKeyAck(key PublicKey, c packetConn) (bool, error) {
+func confirmKeyAck(key PublicKey, c packetConn) (bool, []string, error) {
 	pubKey := key.Marshal()
 
 	for {
 		packet, err := c.readPacket()
 		if err != nil {
-			return false, err
+			return false, nil, err
 		}
 		switch packet[0] {
 		case msgUserAuthBanner:
 			if err := handleBannerResponse(c, packet); err != nil {
-				return false, err
+				return false, nil, err
 			}
 		case msgUserAuthPubKeyOk:
 			var msg userAuthPubKeyOkMsg
 			if err := Unmarshal(packet, &msg); err != nil {
-				return false, err
+				return false, nil, err
 			}
 			// According to RFC 4252 Section 7 the algorithm in
 			// SSH_MSG_USERAUTH_PK_OK should match that of the request but some
@@ -469,16 +487,20 @@ func confirmKeyAck(key PublicKey, c packetConn) (bool, error) {
 			// that matches the public key, so we do the same.
 			// https://github.com/openssh/openssh-portable/blob/86bdd385/sshconnect2.c#L709
 			if !slices.Contains(algorithmsForKeyFormat(key.Type()), msg.Algo) {
-				return false, nil
+				return false, nil, nil
 			}
 			if !bytes.Equal(msg.PubKey, pubKey) {
-				return false, nil
+				return false, nil, nil
 			}
-			return true, nil
+			return true, nil, nil
 		case msgUserAuthFailure:
-			return false, nil
+			var msg userAuthFailureMsg
+			if err := Unmarshal(packet, &msg); err != nil {
+				return false, nil, err
+			}
+			return false, msg.Methods, nil
 		default:
-			return false, unexpectedMessageError(msgUserAuthPubKeyOk, packet[0])
+			return false, nil, unexpectedMessageError(msgUserAuthPubKeyOk, packet[0])
 		}
 	}
 }
